@@ -24,18 +24,31 @@ def build_interp_program(md, observe_reg=None, land=None):
     if md['sfi'] != 0: return None, 'model needs call depth > 0'
     pre = b''; patches = []; fix_stack = []
     RANGE_OFF = lambda j: 64 + 128 * j
+    kcls, kinfo = spec.classify(md['opc'])
+    base_reg = None; addr_adj = 0; minus = None
+    off_s = ref.sx(md['off'], 16)
+    if kcls in ('st', 'stx', 'xadd'): base_reg, addr_adj = md['dst'], off_s
+    elif kcls == 'ldx': base_reg, addr_adj = md['src'], off_s
+    elif kcls == 'ldind': base_reg, addr_adj, minus = md['src'], (md['imm'] & 0xffffffff) + md['mem_base'], 'mem'
     for r in range(10):
-        v = md['regs'][r]; cv = classify_value(v, md)
+        v = md['regs'][r]; cv = classify_value(v, md); sub = None; adj = 0
+        if r == base_reg:
+            # the register only matters through the effective address: place the *address* relative to its region
+            ca = classify_value((v + addr_adj) & ref.M64, md)
+            if ca is not None:
+                cv = ca; adj = addr_adj if minus is None else (md['imm'] & 0xffffffff); sub = minus
         slot = len(pre) // 8
         if cv is None: pre += lddw(r, v)
         else:
-            name, delta = cv
-            if name == 'stack':       # stack_base + delta = r10 - 512 + delta
+            name, delta = cv; delta -= adj
+            if name == 'stack' and sub is None:       # stack_base + delta = r10 - 512 + delta
+                if not (-2**31 <= delta - 512 < 2**31): return None, 'stack-relative delta out of range'
                 pre += insn(0xbf, r, 10) + insn(0x07, r, 0, 0, delta - 512)
+            elif name == 'stack': return None, 'stack-relative ldind address not replayable'
             elif name.startswith('range'):
-                patches.append((slot, 'extra', RANGE_OFF(int(name[5:])) + delta)); pre += lddw(r, 0)
+                patches.append((slot, 'extra', RANGE_OFF(int(name[5:])) + delta) + ((sub,) if sub else ())); pre += lddw(r, 0)
             else:
-                patches.append((slot, name, delta)); pre += lddw(r, 0)
+                patches.append((slot, name, delta) + ((sub,) if sub else ())); pre += lddw(r, 0)
     L = len(pre) // 8
     if p < L: return None, f'model pc {p} too small for the {L}-slot prelude'
     if n < p + 2: n = p + 2
@@ -76,8 +89,9 @@ def run_ref(b, resp, helpers):
     """reference run with the buffer addresses the native run used"""
     prog = bytearray(b['prog'])
     base = dict(mem=resp['mem_addr'], mbuff=resp['mbuff_addr'], extra=resp['extra_addr'])
-    for slot, which, delta in b['patch']:
-        v = (base[which] + delta) & ref.M64
+    for pt in b['patch']:
+        slot, which, delta = pt[:3]
+        v = (base[which] + delta - (base[pt[3]] if len(pt) > 3 else 0)) & ref.M64
         prog[slot * 8 + 4:slot * 8 + 8] = (v & 0xffffffff).to_bytes(4, 'little'); prog[slot * 8 + 12:slot * 8 + 16] = (v >> 32).to_bytes(4, 'little')
     allowed = [(base[w] + o, base[w] + o + l) for w, o, l in b['allowed']]
     R = ref.Regions(b['mem'], base['mem'], b['mbuff'], base['mbuff'], b['extra'], base['extra'], allowed)
@@ -102,7 +116,7 @@ def replay_interp(c, engine='interp'):
     if md is None: return True, 'structural finding (no model needed)'
     role = c['role']; aspect = role.split('/')[2] if role.count('/') >= 2 else role
     obs = md.get('reg') if aspect == 'reg-value' else None
-    land = md.get('want') if aspect == 'pc-value' else None
+    land = md.get('want') if aspect.startswith('pc-value') else None
     b, why = build_interp_program(md, observe_reg=obs, land=land)
     if b is None: return None, why
     helpers = []
